@@ -63,7 +63,8 @@ def main():
             # files the demonstration CREATES (removed again afterwards); files it only appends to are restored by patch -R
             new_files = re.findall(r"^--- /dev/null\n\+\+\+ b/(\S+)", demo_text, re.M)
             tests = [os.path.splitext(os.path.basename(f))[0] for f in touched if f.startswith("tests/")]
-            demo_cmd = ("cargo test --offline --test %s 2>&1" % tests[0]) if tests else "cargo test --offline --lib seed 2>&1"
+            mods = re.findall(r"^\+\s*(?:pub\s+)?mod\s+(\w+)", demo_text, re.M)
+            demo_cmd = ("cargo test --offline --test %s 2>&1" % tests[0]) if tests else ("cargo test --offline --lib %s 2>&1" % (mods[0] + "::" if mods else "seed"))
             confirm["demo_cmd"] = demo_cmd
             rc1, out1 = sh("timeout 600 " + demo_cmd, cwd=scratch)
             r1, f1 = test_summary(out1)
@@ -72,7 +73,9 @@ def main():
             rc2, out2 = sh("timeout 600 " + demo_cmd, cwd=scratch)
             r2, f2 = test_summary(out2)
             confirm["demo_without_change"] = {"rc": rc2, "results": r2, "failed": f2, "tail": out2[-300:]}
-            confirm["demo_discriminates"] = rc1 != 0 and rc2 == 0
+            ran1 = sum(int(a) + int(b) for _, a, b in r1)
+            ran2 = sum(int(a) + int(b) for _, a, b in r2)
+            confirm["demo_discriminates"] = rc1 != 0 and rc2 == 0 and ran2 > 0
             # back to: change applied, demo removed
             sh("patch -p1 --no-backup-if-mismatch < %s/patch.diff" % src, cwd=scratch)
             sh("patch -R -p1 --no-backup-if-mismatch < %s/demo.diff" % src, cwd=scratch)
@@ -82,6 +85,15 @@ def main():
                 except OSError:
                     pass
     meta["confirmation"] = confirm
+    if "--confirm-only" in sys.argv:
+        dest = os.path.join(VERIF, "seeded", name)
+        mp = os.path.join(dest, "meta.json")
+        m0 = json.load(open(mp))
+        m0["confirmation"] = confirm
+        json.dump(m0, open(mp, "w"), indent=1)
+        shutil.rmtree(scratch, ignore_errors=True)
+        print("%s: confirmation redone: suite_ok=%s demo_discriminates=%s (%s)" % (name, confirm.get("suite_still_passes"), confirm.get("demo_discriminates"), confirm.get("demo_cmd")))
+        return 0
     # ---- run the checks against the changed tree
     outdir = "/var/tmp/seedeval-out-%s" % name
     shutil.rmtree(outdir, ignore_errors=True)
